@@ -321,12 +321,13 @@ Definition emit_step (d : data) (p : params) (bestdep : Z) (count : nat)
       let dists := match find_trip d t with Some tr => trip_dists d tr | None => [] end in
       let have := Nat.ltb (useq - 1) (length dists) in
       let ivd := if have then sum_dists dists (bseq - 1)%nat (useq - (bseq - 1))%nat else -1 in
-      let tdist := if have then e_tdist st + ivd else -1 in
+      let tdist := if have then (if e_tdist st =? -1 then e_tdist st else e_tdist st + ivd) else -1 in
       let twalkd := if have && transferable then e_twalkd st + ivd else e_twalkd st in
       let twalk := if have && transferable then e_twalk st + ivt else e_twalk st in
       let ttrd := if have && transferable then e_ttrd st + ivd else e_ttrd st in
       let ttrwalk := if have && transferable then e_ttrwalk st + ivt else e_ttrwalk st in
-      let tivd := if have then (if transferable then e_tivd st else e_tivd st + ivd) else -1 in
+      let tivd := if have then (if transferable then e_tivd st
+                                else if e_tivd st =? -1 then e_tivd st else e_tivd st + ivd) else -1 in
       let accwait := if Nat.eqb i 1 then waiting else e_accwait st in
       let ttrwait := if Nat.eqb i 1 then e_ttrwait st else e_ttrwait st + waiting in
       let steps1 := e_steps st ++ [SBoard t bseq bseq (c_from en) departureTime waiting;
